@@ -17,8 +17,8 @@ pub fn preprocess_joint_name(joint_name: &str) -> String {
     let re_non_alphanumeric = Regex::new(r"[^\w]|_").unwrap();
     let clean_name = re_non_alphanumeric.replace_all(&processed_name, "");
 
-    let processed_name = discard_non_digit_joint_chars(clean_name.to_string());
-    remove_before_joint(processed_name.to_lowercase())
+    let processed_name = discard_non_digit_joint_chars(clean_name.to_lowercase());
+    remove_before_joint(processed_name)
 } 
 
 fn discard_non_digit_joint_chars(input: String) -> String {
